@@ -234,6 +234,6 @@ package remote
 //@ func (*Remote).Start(e)
 //@   props C17
 //@   requires r != nil && engInv(e)
-//@   modifies heap except private, r.state, r.engine, r.streamRouterPID, r.stopWg, r.stopCh, log, loglen
+//@   modifies heap except private, r.state, r.engine, r.streamRouterPID, r.stopWg, r.stopCh, log, loglen, startPerm
 //@   ensures[C17.remote.start-moves-to-running] old(aload(r, "state")) == stateInitialized ==> aload(r, "state") == stateRunning
 //@   ensures[C17.remote.second-start-is-an-error-without-effect] old(aload(r, "state")) != stateInitialized ==> !isnil(result) && aload(r, "state") == old(aload(r, "state")) && r.engine == old(r.engine) && r.streamRouterPID == old(r.streamRouterPID) && loglen == entry(loglen)
